@@ -3,7 +3,8 @@
 Correspondence = the configuration matrix: the harness is built WITHOUT sanitizers with
 {g++ 12, clang++ 14} x {-O0, -O2, -O3} x {deprecated API on, SIGCXX_DISABLE_DEPRECATED} from /repo's
 current tree and every configuration runs the same programs (all runtime corpora + generated ones);
-every trace must equal the model's (hence all configurations agree with each other).  Thorough adds
+every trace must equal the model's (hence all configurations agree with each other); the same programs also run in
+the sanitized reference build (g++ -O1 ASan+UBSan), where any report is a failure.  Thorough adds
 clang -fsanitize=undefined,function (a call through a mismatched function type — exactly the erased call
 path) and valgrind memcheck (uninitialised reads) on a sample.
 """
@@ -178,6 +179,25 @@ def correspondence(ctx):
             dis.append({"input": progs[i], "name": names[i], "impl": traces[c0].get(i, "")[-2000:], "model": model[i][-2000:],
                         "detail": "all configurations agree but differ from the model at %s" % (d,)})
     extra = {}
+    # the sanitized reference configuration (g++ -O1, ASan + UBSan incl. the vptr check; the build every runtime check
+    # uses): undefined behaviour that happens to produce the same trace in all plain configurations is still reported
+    san_exe, san_log = runtime.build_main_harness()
+    if not san_exe:
+        infra.append("sanitized configuration does not build: " + san_log[-800:])
+    else:
+        sres = runtime.compare(san_exe, progs, with_spec=False)
+        bad = 0
+        for i, r in enumerate(sres):
+            if r["verdict"]:
+                bad += 1
+                mon.append({"input": progs[i], "name": names[i], "impl": r["impl"][-1500:], "model": model[i][-1500:],
+                            "detail": "the sanitized build (g++ -O1 -fsanitize=address,undefined) reports %s: %s"
+                                      % (r["verdict"], (r.get("stderr") or "")[-600:])})
+            elif r["diff"] is not None:
+                bad += 1
+                dis.append({"input": progs[i], "name": names[i], "impl": r["impl"][-2000:], "model": model[i][-2000:],
+                            "detail": "sanitized configuration differs from the model at %s" % (r["diff"],)})
+        per_cfg["gpp-O1_asan_ubsan"] = {"programs": len(progs), "differ_from_model": bad}
     if ctx.thorough:
         # clang UBSan with the function sanitizer on the erased call path
         exe, log = build_cfg(("clang++-14", "-O1", False), extra_flags=["-g", "-fsanitize=undefined,function",
@@ -220,13 +240,13 @@ def correspondence(ctx):
             if rt.nontrivial(traces[c0].get(i, "")):
                 distinct_nt.add(hashlib.sha1(progs[i].encode()).hexdigest())
     out = {
-        "evaluations": len(progs) * len(exes),
+        "evaluations": len(progs) * (len(exes) + (1 if san_exe else 0)),
         "distinct_nontrivial": len(distinct_nt),
         "rule": "every runtime corpus program + programs drawn from the default and the accumulator profile, run in every "
                 "build configuration of this tier; non-trivial = >= 1 functor ran and >= 8 operations had an effect; distinct "
                 "by program text (counted once, not per configuration)",
         "samples": [{"name": names[i], "program": progs[i][:800]} for i in (0, len(corpus))][:2],
-        "traces_validated_against_impl": len(progs) * len(exes),
+        "traces_validated_against_impl": len(progs) * (len(exes) + (1 if san_exe else 0)),
         "distribution": {"configurations": per_cfg, "corpus_programs": len(corpus), **extra},
         "disagreements": dis[:10],
         "monitor_failures": mon[:10],
